@@ -3,11 +3,12 @@ import Rfsm.Model.ExprParser
 The grouping theorem for `stackToExpr` (`stack_to_expression`) on infix chains.
 
 A chain is kept as a forest: a first tree and a list of (operator, tree).  `flat` is the parser
-stack of a forest.  One round of `stackToExpr` = `scan` (finds the last operator of minimal
-priority number, `bestOp_cases`) + `foldAt` (merges its two neighbours, `foldAt_flat`) =
-`mergeAt` on the forest.  The invariant `Inv` (every tree is right grouped; operators to the left
-of a tree bind at most as tightly as its top, operators to its right strictly less tightly) is
-preserved by merging at the best operator, and the in-order reading never changes.
+stack of a forest.  One round of `stackToExpr` = `scan` (finds the operator of minimal priority
+number; among equal ones the first for the left-to-right operators, the last for `=`/`?=`:
+`bestOp_cases`) + `foldAt` (merges its two neighbours, `foldAt_flat`) = `mergeAt` on the forest.
+The invariant `Inv` (every tree has the documented grouping; every tree may stand to the right of
+each operator on its left and to the left of each operator on its right: `okRightOf`/`okLeftOf`)
+is preserved by merging at the best operator, and the in-order reading never changes.
 -/
 namespace Rfsm.Expr
 
@@ -42,10 +43,20 @@ def WellGrouped : BTree → Prop
     (if rightAssoc o then l.topPrio < prio o ∧ r.topPrio ≤ prio o
      else l.topPrio ≤ prio o ∧ r.topPrio < prio o)
 
-/-- what the code does: every operator groups to the right -/
-def RightGrouped : BTree → Prop
-  | .leaf _ => True
-  | .node o l r => RightGrouped l ∧ RightGrouped r ∧ l.topPrio < prio o ∧ r.topPrio ≤ prio o
+/-- a tree whose top priority number is `p` may be the left operand of `q` -/
+def okLeftOf (p : Nat) (q : Op) : Prop := if rightAssoc q then p < prio q else p ≤ prio q
+
+/-- a tree whose top priority number is `p` may be the right operand of `l` -/
+def okRightOf (p : Nat) (l : Op) : Prop := if rightAssoc l then p ≤ prio l else p < prio l
+
+instance (p : Nat) (q : Op) : Decidable (okLeftOf p q) := by unfold okLeftOf; infer_instance
+instance (p : Nat) (l : Op) : Decidable (okRightOf p l) := by unfold okRightOf; infer_instance
+
+theorem wellGrouped_node (o : Op) (l r : BTree) :
+    WellGrouped (.node o l r) ↔
+      WellGrouped l ∧ WellGrouped r ∧ okLeftOf l.topPrio o ∧ okRightOf r.topPrio o := by
+  simp only [WellGrouped, okLeftOf, okRightOf]
+  by_cases h : rightAssoc o = true <;> simp [h]
 
 abbrev Forest := List (Op × BTree)
 
@@ -81,7 +92,7 @@ theorem prio_pos (o : Op) : 0 < prio o := by cases o <;> decide
 def bestOp : List Op → Nat → Nat → Nat → Nat × Nat
   | [], _, bi, bp => (bi, bp)
   | o :: os, si, bi, bp =>
-    if prio o ≤ bp then bestOp os (si + 2) si (prio o) else bestOp os (si + 2) bi bp
+    if better o bp then bestOp os (si + 2) si (prio o) else bestOp os (si + 2) bi bp
 
 theorem scan_flat (t0 : BTree) (rest : Forest) (si bi bp : Nat) :
     scan (flat t0 rest) si bi bp = some (flat t0 rest, bestOp (fops rest) (si + 1) bi bp) := by
@@ -90,53 +101,95 @@ theorem scan_flat (t0 : BTree) (rest : Forest) (si bi bp : Nat) :
   | cons p rest ih =>
     obtain ⟨o, t⟩ := p
     simp only [flat, scan, fops, List.map_cons, bestOp]
-    by_cases h : prio o ≤ bp
+    by_cases h : better o bp = true
     · simp only [h, if_true]
       have := ih t (si + 1 + 1) (si + 1) (prio o)
       simp only [fops] at this
       rw [this]; rfl
-    · simp only [h, if_false]
+    · simp only [h, Bool.false_eq_true, if_false]
       have := ih t (si + 1 + 1) bi bp
       simp only [fops] at this
       rw [this]; rfl
 
-/-- where `bestOp` ends: nothing beats the incoming best, or the last operator of minimal
-priority number among those that do -/
+/-- operators of one priority have one direction -/
+theorem rightToLeft_of_prio_eq (a b : Op) (h : prio a = prio b) : rightToLeft a = rightToLeft b := by
+  cases a <;> cases b <;> first | rfl | (exfalso; revert h; decide)
+
+theorem better_trans (a b : Op) (bp : Nat) (h1 : better a (prio b) = true) (h2 : better b bp = true) :
+    better a bp = true := by
+  have hr := rightToLeft_of_prio_eq a b
+  simp only [better, Bool.or_eq_true, Bool.and_eq_true, decide_eq_true_eq, beq_iff_eq] at h1 h2 ⊢
+  rcases h1 with h1 | ⟨h1, h1'⟩
+  · rcases h2 with h2 | ⟨_, h2'⟩
+    · left; omega
+    · left; omega
+  · rcases h2 with h2 | ⟨h2, h2'⟩
+    · left; omega
+    · right; exact ⟨h1, by omega⟩
+
+theorem better_of_not_better (a b : Op) (bp : Nat) (h1 : better a bp = true)
+    (h2 : ¬ better b bp = true) : better a (prio b) = true := by
+  have hr := rightToLeft_of_prio_eq a b
+  simp only [better, Bool.or_eq_true, Bool.and_eq_true, decide_eq_true_eq, beq_iff_eq, not_or,
+    not_and, Nat.not_lt] at h1 h2 ⊢
+  obtain ⟨h2a, h2b⟩ := h2
+  rcases h1 with h1 | ⟨h1, h1'⟩
+  · left; omega
+  · by_cases he : prio b = bp
+    · exfalso
+      have := hr (by omega)
+      rw [h1] at this
+      exact h2b this.symm he
+    · left; omega
+
+/-- where `bestOp` ends: nothing beats the incoming best, or the operator that beats the incoming
+best and every operator before it and is beaten by none after it -/
 theorem bestOp_cases (os : List Op) (si bi bp : Nat) :
-    (bestOp os si bi bp = (bi, bp) ∧ ∀ o ∈ os, bp < prio o) ∨
+    (bestOp os si bi bp = (bi, bp) ∧ ∀ o ∈ os, ¬ better o bp = true) ∨
     (∃ pre o post, os = pre ++ o :: post ∧ bestOp os si bi bp = (si + 2 * pre.length, prio o) ∧
-      prio o ≤ bp ∧ (∀ p ∈ pre, prio o ≤ prio p) ∧ (∀ q ∈ post, prio o < prio q)) := by
+      better o bp = true ∧ (∀ p ∈ pre, better o (prio p) = true) ∧
+      (∀ q ∈ post, ¬ better q (prio o) = true)) := by
   induction os generalizing si bi bp with
   | nil => left; simp [bestOp]
   | cons o os ih =>
     simp only [bestOp]
-    by_cases h : prio o ≤ bp
+    by_cases h : better o bp = true
     · simp only [h, if_true]
       rcases ih (si + 2) si (prio o) with ⟨h1, h2⟩ | ⟨pre, o', post, h1, h2, h3, h4, h5⟩
       · right
         exact ⟨[], o, os, rfl, by simpa using h1, h, by simp, h2⟩
       · right
-        refine ⟨o :: pre, o', post, by simp [h1], ?_, Nat.le_trans h3 h, ?_, h5⟩
+        refine ⟨o :: pre, o', post, by simp [h1], ?_, better_trans _ _ _ h3 h, ?_, h5⟩
         · rw [h2]; simp only [List.length_cons]; congr 1; omega
         · intro p hp
           rcases List.mem_cons.1 hp with rfl | hp
           · exact h3
           · exact h4 p hp
-    · simp only [h, if_false]
+    · simp only [h, Bool.false_eq_true, if_false]
       rcases ih (si + 2) bi bp with ⟨h1, h2⟩ | ⟨pre, o', post, h1, h2, h3, h4, h5⟩
       · left
         refine ⟨h1, ?_⟩
         intro q hq
         rcases List.mem_cons.1 hq with rfl | hq
-        · omega
+        · exact h
         · exact h2 q hq
       · right
         refine ⟨o :: pre, o', post, by simp [h1], ?_, h3, ?_, h5⟩
         · rw [h2]; simp only [List.length_cons]; congr 1; omega
         · intro p hp
           rcases List.mem_cons.1 hp with rfl | hp
-          · omega
+          · exact better_of_not_better _ _ _ h3 h
           · exact h4 p hp
+
+/-- the winner may stand to the right of every binary operator it beats … -/
+theorem okRightOf_of_better (o l : Op) (ho : o ≠ .not) (hl : l ≠ .not)
+    (h : better o (prio l) = true) : okRightOf (prio o) l := by
+  cases o <;> cases l <;> first | exact absurd rfl ho | exact absurd rfl hl | (revert h; decide)
+
+/-- … and to the left of every binary operator that does not beat it -/
+theorem okLeftOf_of_not_better (o q : Op) (ho : o ≠ .not) (hq : q ≠ .not)
+    (h : ¬ better q (prio o) = true) : okLeftOf (prio o) q := by
+  cases o <;> cases q <;> first | exact absurd rfl ho | exact absurd rfl hq | (revert h; decide)
 
 /-! ### foldAt -/
 
@@ -197,16 +250,17 @@ theorem foldAt_flat (t0 : BTree) (rest : Forest) (k : Nat) (hk : k < rest.length
 
 /-! ### the invariant -/
 
-/-- `L` = operators to the left of `t0` (nearest first); operators to the left of a tree bind at
-most as tightly as its top operator, those to its right strictly less tightly -/
+/-- `L` = operators to the left of `t0` (nearest first): every tree has the documented grouping,
+may be the right operand of every operator on its left and the left operand of every operator on
+its right -/
 def Inv : List Op → BTree → Forest → Prop
-  | L, t0, [] => RightGrouped t0 ∧ (∀ l ∈ L, t0.topPrio ≤ prio l)
+  | L, t0, [] => WellGrouped t0 ∧ (∀ l ∈ L, okRightOf t0.topPrio l)
   | L, t0, (o, t) :: rest =>
-    RightGrouped t0 ∧ (∀ l ∈ L, t0.topPrio ≤ prio l) ∧
-    (∀ q ∈ fops ((o, t) :: rest), t0.topPrio < prio q) ∧ Inv (o :: L) t rest
+    WellGrouped t0 ∧ (∀ l ∈ L, okRightOf t0.topPrio l) ∧
+    (∀ q ∈ fops ((o, t) :: rest), okLeftOf t0.topPrio q) ∧ Inv (o :: L) t rest
 
 theorem Inv_head {L : List Op} {t0 : BTree} {rest : Forest} (h : Inv L t0 rest) :
-    RightGrouped t0 ∧ (∀ l ∈ L, t0.topPrio ≤ prio l) ∧ (∀ q ∈ fops rest, t0.topPrio < prio q) := by
+    WellGrouped t0 ∧ (∀ l ∈ L, okRightOf t0.topPrio l) ∧ (∀ q ∈ fops rest, okLeftOf t0.topPrio q) := by
   cases rest with
   | nil => exact ⟨h.1, h.2, by simp [fops]⟩
   | cons p rest => obtain ⟨o, t⟩ := p; exact ⟨h.1, h.2.1, h.2.2.1⟩
@@ -239,11 +293,11 @@ theorem fops_mergeAt_sub (t0 : BTree) (rest : Forest) (k : Nat) :
       · exact List.mem_cons_self
       · exact List.mem_cons_of_mem _ (ih t k q hq)
 
-/-- merging at the last operator of minimal priority number keeps the invariant -/
+/-- merging at the best operator keeps the invariant -/
 theorem Inv_mergeAt (L : List Op) (t0 : BTree) (pre : Forest) (o : Op) (t : BTree) (post : Forest)
     (h : Inv L t0 (pre ++ (o, t) :: post))
-    (hL : ∀ l ∈ L, prio o ≤ prio l) (hpre : ∀ p ∈ fops pre, prio o ≤ prio p)
-    (hpost : ∀ q ∈ fops post, prio o < prio q) :
+    (hL : ∀ l ∈ L, okRightOf (prio o) l) (hpre : ∀ p ∈ fops pre, okRightOf (prio o) p)
+    (hpost : ∀ q ∈ fops post, okLeftOf (prio o) q) :
     Inv L (mergeAt t0 (pre ++ (o, t) :: post) pre.length).1
       (mergeAt t0 (pre ++ (o, t) :: post) pre.length).2 := by
   induction pre generalizing L t0 with
@@ -251,8 +305,8 @@ theorem Inv_mergeAt (L : List Op) (t0 : BTree) (pre : Forest) (o : Op) (t : BTre
     simp only [List.nil_append, List.length_nil, mergeAt]
     obtain ⟨h1, h2, h3, h4⟩ := h
     have ht := Inv_head h4
-    have hnode : RightGrouped (.node o t0 t) :=
-      ⟨h1, ht.1, h3 o (by simp [fops]), ht.2.1 o List.mem_cons_self⟩
+    have hnode : WellGrouped (.node o t0 t) :=
+      (wellGrouped_node o t0 t).2 ⟨h1, ht.1, h3 o (by simp [fops]), ht.2.1 o List.mem_cons_self⟩
     cases post with
     | nil => exact ⟨hnode, fun l hl => hL l hl⟩
     | cons p post =>
@@ -336,11 +390,11 @@ theorem flat_getElem_op (t0 : BTree) (rest : Forest) (k : Nat) (o : Op)
 /-! ### the main theorem -/
 
 /-- what `stack_to_expression` computes on the stack of a forest of binary operators: a tree with
-the same in-order reading in which every operator groups to the right -/
+the same in-order reading and the documented grouping -/
 theorem stackToExpr_flat (n : Nat) : ∀ (fuel : Nat) (t0 : BTree) (rest : Forest),
     rest.length = n → n + 1 ≤ fuel → (∀ o ∈ fops rest, o ≠ .not) → Inv [] t0 rest →
     ∃ t : BTree, stackToExpr fuel (flat t0 rest) = .ok (some t.toExpr) [] ∧
-      t.inorder = inorderF t0 rest ∧ RightGrouped t := by
+      t.inorder = inorderF t0 rest ∧ WellGrouped t := by
   induction n with
   | zero =>
     intro fuel t0 rest hlen hfuel _ hinv
@@ -360,8 +414,8 @@ theorem stackToExpr_flat (n : Nat) : ∀ (fuel : Nat) (t0 : BTree) (rest : Fores
       | nil => exact hne rfl
       | cons p r =>
         have := h2 p.1 (by simp [fops])
-        have := prio_lt_255 p.1
-        omega
+        have hlt := prio_lt_255 p.1
+        simp [better, hlt] at this
     · -- split the forest accordingly
       have hlenp : pre.length < rest.length := by
         have := congrArg List.length hsplit
@@ -396,8 +450,12 @@ theorem stackToExpr_flat (n : Nat) : ∀ (fuel : Nat) (t0 : BTree) (rest : Fores
       have hinv' : Inv [] (mergeAt t0 rest pre.length).1 (mergeAt t0 rest pre.length).2 := by
         rw [hrest, ← hpl]
         apply Inv_mergeAt [] t0 preF o t postF (hrest ▸ hinv) (by simp)
-        · rw [hpreF]; exact hpre
-        · rw [hpostF]; exact hpost
+        · rw [hpreF]
+          intro p hp
+          exact okRightOf_of_better o p hon (hbin p (by rw [hsplit]; simp [hp])) (hpre p hp)
+        · rw [hpostF]
+          intro q hq
+          exact okLeftOf_of_not_better o q hon (hbin q (by rw [hsplit]; simp [hq])) (hpost q hq)
       have hlen' : (mergeAt t0 rest pre.length).2.length = n := by
         have := mergeAt_length t0 rest pre.length hlenp
         omega
@@ -451,61 +509,62 @@ theorem inorderF_leaves (a0 : Expr) (rest : List (Op × Expr)) :
 theorem fops_leaves (rest : List (Op × Expr)) : fops (leaves rest) = rest.map (·.1) := by
   simp [fops, leaves]
 
+theorem okRightOf_zero (l : Op) : okRightOf 0 l := by
+  have := prio_pos l
+  unfold okRightOf; split <;> omega
+
+theorem okLeftOf_zero (q : Op) : okLeftOf 0 q := by
+  have := prio_pos q
+  unfold okLeftOf; split <;> omega
+
 theorem Inv_leaves (L : List Op) (a0 : Expr) (rest : List (Op × Expr)) :
     Inv L (.leaf a0) (leaves rest) := by
   induction rest generalizing L a0 with
-  | nil => exact ⟨trivial, fun l _ => Nat.zero_le _⟩
+  | nil => exact ⟨trivial, fun l _ => okRightOf_zero l⟩
   | cons p rest ih =>
     obtain ⟨o, a⟩ := p
-    exact ⟨trivial, fun l _ => Nat.zero_le _, fun q _ => prio_pos q, ih (o :: L) a⟩
-
-/-- right grouping is the documented grouping as long as no two left-associative operators of the
-same priority occur in the chain -/
-theorem wellGrouped_of_rightGrouped (t : BTree) (h : RightGrouped t)
-    (hp : t.inorder.2.Pairwise fun p q => prio p.1 = prio q.1 → rightAssoc p.1 = true) :
-    WellGrouped t := by
-  induction t with
-  | leaf e => trivial
-  | node o l r ihl ihr =>
-    obtain ⟨hl, hr, h1, h2⟩ := h
-    simp only [BTree.inorder, List.pairwise_append, List.pairwise_cons] at hp
-    obtain ⟨hpl, ⟨hpo, hpr⟩, _⟩ := hp
-    refine ⟨ihl hl hpl, ihr hr hpr, ?_⟩
-    by_cases hra : rightAssoc o = true
-    · simp only [hra, if_true]; exact ⟨h1, h2⟩
-    · simp only [hra, Bool.false_eq_true, if_false]
-      refine ⟨Nat.le_of_lt h1, ?_⟩
-      rcases Nat.lt_or_eq_of_le h2 with h3 | h3
-      · exact h3
-      · exfalso
-        cases r with
-        | leaf e => simp only [BTree.topPrio] at h3; have := prio_pos o; omega
-        | node o2 l2 r2 =>
-          simp only [BTree.topPrio] at h3
-          have hmem : (o2, r2.inorder.1) ∈ (BTree.node o2 l2 r2).inorder.2 := by
-            simp [BTree.inorder]
-          exact hra (hpo _ hmem h3.symm)
+    exact ⟨trivial, fun l _ => okRightOf_zero l, fun q _ => okLeftOf_zero q, ih (o :: L) a⟩
 
 /-! ### uniqueness -/
 
-/-- in a right-grouped tree every operator binds at least as tightly as the top one -/
-theorem rightGrouped_ops_le (t : BTree) (h : RightGrouped t) :
+/-- in a well grouped tree every operator binds at least as tightly as the top one -/
+theorem wellGrouped_ops_le (t : BTree) (h : WellGrouped t) :
     ∀ p ∈ t.inorder.2, prio p.1 ≤ t.topPrio := by
   induction t with
   | leaf e => intro p hp; simp [BTree.inorder] at hp
   | node o l r ihl ihr =>
-    obtain ⟨hl, hr, h1, h2⟩ := h
+    obtain ⟨hl, hr, h1, h2⟩ := (wellGrouped_node o l r).1 h
     intro p hp
     simp only [BTree.inorder, List.mem_append, List.mem_cons] at hp
     simp only [BTree.topPrio]
+    have h1' : l.topPrio ≤ prio o := by unfold okLeftOf at h1; split at h1 <;> omega
+    have h2' : r.topPrio ≤ prio o := by unfold okRightOf at h2; split at h2 <;> omega
     rcases hp with hp | rfl | hp
     · have := ihl hl p hp; omega
     · exact Nat.le_refl _
     · have := ihr hr p hp; omega
 
-/-- the right-grouped tree of a chain is unique: its root is the first operator of maximal
-priority number -/
-theorem rightGrouped_unique (t1 t2 : BTree) (h1 : RightGrouped t1) (h2 : RightGrouped t2)
+theorem rightAssoc_of_prio_eq (a b : Op) (h : prio a = prio b) : rightAssoc a = rightAssoc b := by
+  cases a <;> cases b <;> first | rfl | (exfalso; revert h; decide)
+
+/-- an operator of the left operand and an operator of the right operand cannot both be tops -/
+theorem wellGrouped_clash (o1 o2 : Op) (pl pr : Nat) (h1 : prio o1 ≤ pl) (h2 : prio o2 ≤ pr)
+    (hl : okLeftOf pl o2) (hr : okRightOf pr o1) : False := by
+  have he := rightAssoc_of_prio_eq o1 o2
+  unfold okLeftOf at hl
+  unfold okRightOf at hr
+  split at hl <;> split at hr
+  · omega
+  · rename_i ha hb
+    have : prio o1 = prio o2 := by omega
+    rw [he this] at hb; exact hb ha
+  · rename_i ha hb
+    have : prio o1 = prio o2 := by omega
+    rw [he this] at hb; exact ha hb
+  · omega
+
+/-- the well grouped tree of a chain is unique: the parser's result is characterised completely -/
+theorem wellGrouped_unique (t1 t2 : BTree) (h1 : WellGrouped t1) (h2 : WellGrouped t2)
     (hin : t1.inorder = t2.inorder) : t1 = t2 := by
   induction t1 generalizing t2 with
   | leaf e =>
@@ -520,18 +579,17 @@ theorem rightGrouped_unique (t1 t2 : BTree) (h1 : RightGrouped t1) (h2 : RightGr
       have := congrArg (fun p => p.2.length) hin
       simp [BTree.inorder] at this
     | node o2 l2 r2 =>
-      obtain ⟨hl1, hr1, ha1, hb1⟩ := h1
-      obtain ⟨hl2, hr2, ha2, hb2⟩ := h2
+      obtain ⟨hl1, hr1, ha1, hb1⟩ := (wellGrouped_node _ _ _).1 h1
+      obtain ⟨hl2, hr2, ha2, hb2⟩ := (wellGrouped_node _ _ _).1 h2
       simp only [BTree.inorder, Prod.mk.injEq] at hin
       obtain ⟨hfst, hsnd⟩ := hin
-      have ol1 := rightGrouped_ops_le l1 hl1
-      have or1 := rightGrouped_ops_le r1 hr1
-      have ol2 := rightGrouped_ops_le l2 hl2
-      have or2 := rightGrouped_ops_le r2 hr2
+      have ol1 := wellGrouped_ops_le l1 hl1
+      have or1 := wellGrouped_ops_le r1 hr1
+      have ol2 := wellGrouped_ops_le l2 hl2
+      have or2 := wellGrouped_ops_le r2 hr2
       -- the two splits of the operator list coincide
       rcases List.append_eq_append_iff.1 hsnd with ⟨m, hm1, hm2⟩ | ⟨m, hm1, hm2⟩
-      · -- l2 ops = l1 ops ++ m,  (o1,_) :: r1 ops = m ++ (o2,_) :: r2 ops
-        cases m with
+      · cases m with
         | nil =>
           simp only [List.nil_append, List.cons.injEq, Prod.mk.injEq] at hm2
           simp only [List.append_nil] at hm1
@@ -547,10 +605,7 @@ theorem rightGrouped_unique (t1 t2 : BTree) (h1 : RightGrouped t1) (h2 : RightGr
           -- (o1, _) is among l2's operators, (o2, _) among r1's
           have hx2 : (o1, r1.inorder.1) ∈ l2.inorder.2 := by rw [hm1, ← hx]; simp
           have hy1 : (o2, r2.inorder.1) ∈ r1.inorder.2 := by rw [hrest]; simp
-          have := ol2 _ hx2
-          have := or1 _ hy1
-          simp only at *
-          omega
+          exact wellGrouped_clash o1 o2 _ _ (ol2 _ hx2) (or1 _ hy1) ha2 hb1
       · cases m with
         | nil =>
           simp only [List.nil_append, List.cons.injEq, Prod.mk.injEq] at hm2
@@ -566,9 +621,6 @@ theorem rightGrouped_unique (t1 t2 : BTree) (h1 : RightGrouped t1) (h2 : RightGr
           obtain ⟨hx, hrest⟩ := hm2
           have hx1 : (o2, r2.inorder.1) ∈ l1.inorder.2 := by rw [hm1, ← hx]; simp
           have hy2 : (o1, r1.inorder.1) ∈ r2.inorder.2 := by rw [hrest]; simp
-          have := ol1 _ hx1
-          have := or2 _ hy2
-          simp only at *
-          omega
+          exact wellGrouped_clash o2 o1 _ _ (ol1 _ hx1) (or2 _ hy2) ha1 hb2
 
 end Rfsm.Expr
